@@ -20,13 +20,38 @@ variable {α β : Type}
 theorem ofNatBE_length (len v : Nat) : (Bytes.ofNatBE len v).length = len := by
   simp [Bytes.ofNatBE]
 
+theorem ofNatBE_succ (len v : Nat) :
+    Bytes.ofNatBE (len + 1) v = UInt8.ofNat (v / 256 ^ len % 256) :: Bytes.ofNatBE len v := by
+  simp only [Bytes.ofNatBE, List.range_succ_eq_map, List.map_cons, List.map_map]
+  congr 1
+  apply List.map_congr_left
+  intro i _
+  simp only [Function.comp]
+  have : len + 1 - 1 - (i + 1) = len - 1 - i := by omega
+  rw [this]
+
+/-- the value of the `len`-byte encoding is the value reduced modulo `256^len` -/
+theorem toNatBE_ofNatBE_mod (len v : Nat) :
+    Bytes.toNatBE (Bytes.ofNatBE len v) = v % 256 ^ len := by
+  induction len with
+  | zero => simp [Bytes.ofNatBE, Bytes.toNatBE, Nat.mod_one]
+  | succ len ih =>
+    have hb : (UInt8.ofNat (v / 256 ^ len % 256)).toNat = v / 256 ^ len % 256 := by
+      rw [UInt8.toNat_ofNat']; omega
+    rw [ofNatBE_succ, UtilsCmp.toNatBE_cons, ofNatBE_length, ih, hb,
+      Nat.mod_pow_succ (x := v) (b := 256) (k := len), Nat.mul_comm, Nat.add_comm]
+
+theorem toNatBE_ofNatBE (len v : Nat) (h : v < 256 ^ len) :
+    Bytes.toNatBE (Bytes.ofNatBE len v) = v := by
+  rw [toNatBE_ofNatBE_mod, Nat.mod_eq_of_lt h]
+
 /-- the OR-accumulation over all bytes is zero exactly when the value is zero -/
 theorem all_zero_iff (b : Bytes) : b.all (· == 0) = true ↔ Bytes.toNatBE b = 0 := by
   induction b with
   | nil => simp [Bytes.toNatBE]
   | cons a xs ih =>
     rw [UtilsCmp.toNatBE_cons, List.all_cons, Bool.and_eq_true, ih]
-    have hp : 0 < 256 ^ xs.length := Nat.pos_pow (by omega)
+    have hp : 0 < 256 ^ xs.length := Nat.pow_pos (by omega)
     have ha : (a == 0) = true ↔ a.toNat = 0 := by
       rw [beq_iff_eq, ← UInt8.toNat_inj]; rfl
     rw [ha]
@@ -64,7 +89,8 @@ theorem validKey_iff (d : Nat) : validKey d = true ↔ 1 ≤ d ∧ d < Spec.SM2.
 theorem testPrivateKey_long (X : Ctx α β) (b : Bytes) (hb : 32 < b.length) :
     testPrivateKey X b = .ok ((b.length : Int) - 32) := by
   have : (b.length : Int) - 32 > 0 := by omega
-  simp [testPrivateKey, this]
+  simp only [testPrivateKey]
+  rw [if_pos this]
 
 /-- shorter than 32 bytes: 0 exactly when some byte is non-zero -/
 theorem testPrivateKey_short (X : Ctx α β) (b : Bytes) (hb : b.length < 32) :
@@ -73,10 +99,11 @@ theorem testPrivateKey_short (X : Ctx α β) (b : Bytes) (hb : b.length < 32) :
   have h2 : (b.length : Int) - 32 < 0 := by omega
   by_cases hz : b.all (· == 0) = true
   · have := (all_zero_iff b).mp hz
-    simp [testPrivateKey, h1, hz, this]
+    simp only [testPrivateKey]
+    rw [if_neg h1, if_pos hz, if_pos this]
   · have : ¬ Bytes.toNatBE b = 0 := fun h => hz ((all_zero_iff b).mpr h)
-    simp only [testPrivateKey, h1, hz, h2, this, if_true, if_false]
-    rfl
+    simp only [testPrivateKey]
+    rw [if_neg h1, if_neg hz, if_pos h2, if_neg this]
 
 /-- exactly 32 bytes: 0 exactly when the value is in [1, n-2], otherwise -1 -/
 theorem testPrivateKey_32 (X : Ctx α β) (hn : X.n = Spec.SM2.n) (b : Bytes) (hb : b.length = 32) :
@@ -86,7 +113,9 @@ theorem testPrivateKey_32 (X : Ctx α β) (hn : X.n = Spec.SM2.n) (b : Bytes) (h
   by_cases hz : b.all (· == 0) = true
   · have h0 := (all_zero_iff b).mp hz
     have hv : validKey (Bytes.toNatBE b) = false := by rw [h0]; rfl
-    simp [testPrivateKey, h1, hz, hv]
+    simp only [testPrivateKey]
+    rw [if_neg h1, if_pos hz, hv]
+    rfl
   · have hne : ¬ Bytes.toNatBE b = 0 := fun h => hz ((all_zero_iff b).mpr h)
     have hlen := nMinus1Bytes_length X hn
     have hcmp : Utils.constantTimeCmp (some b) (some (nMinus1Bytes X)) 32
@@ -96,7 +125,9 @@ theorem testPrivateKey_32 (X : Ctx α β) (hn : X.n = Spec.SM2.n) (b : Bytes) (h
       exact this
     have hlt := UtilsCmp.lexCmp_lt_iff_toNat b (nMinus1Bytes X) (by omega)
     rw [nMinus1Bytes_toNat X hn] at hlt
-    simp only [testPrivateKey, h1, hz, h2, if_false, hcmp, Outcome.bind_ok]
+    simp only [testPrivateKey]
+    rw [if_neg h1, if_neg hz, if_neg h2, hcmp]
+    simp only [Outcome.bind_ok]
     by_cases hv : validKey (Bytes.toNatBE b) = true
     · have := hlt.mpr ((validKey_iff _).mp hv).2
       simp [hv, this]
@@ -129,7 +160,7 @@ theorem testPrivateKey_accepts_iff (X : Ctx α β) (hn : X.n = Spec.SM2.n) (b : 
     · intro h; omega
     · intro h; omega
   · by_cases h2 : b.length = 32
-    · simp only [h1, h2, if_true, if_false, Outcome.ok.injEq]
+    · simp only [h2, if_true, Outcome.ok.injEq]
       by_cases hv : validKey (Bytes.toNatBE b) = true
       · simp [hv]
       · have hv' : validKey (Bytes.toNatBE b) = false := by simpa using hv
@@ -290,6 +321,16 @@ theorem genKeyLoop_err_of_no_valid (X : Ctx α β) (hn : X.n = Spec.SM2.n) (f : 
 
 /-! ### public key of a 32-byte scalar -/
 
+/-- the slices `pubBytes[1:33]` and `pubBytes[33:]` of a 65-byte encoding -/
+theorem sec1_slices (a b : Bytes) (ha : a.length = 32) :
+    (([4] ++ a ++ b).drop 1).take 32 = a ∧ ([4] ++ a ++ b).drop 33 = b := by
+  constructor
+  · show (a ++ b).take 32 = a
+    rw [List.take_append_of_le_length (by omega), List.take_of_length_le (by omega)]
+  · show (a ++ b).drop 32 = b
+    rw [List.drop_append_of_le_length (by omega), List.drop_of_length_le (by omega)]
+    simp
+
 /-- `ScalarBaseMult` + `Bytes_Unsafe` + the length test + the two slices, as in `DerivePublic` and the
     tail of `GenerateKey` -/
 theorem publicOf (X : Ctx α β) (F : CurveFacts X) (k : Bytes) (hk : k.length = 32) :
@@ -311,12 +352,8 @@ theorem publicOf (X : Ctx α β) (F : CurveFacts X) (k : Bytes) (hk : k.length =
     rw [hb]
     have hx := ofNatBE_length 32 x
     have hy := ofNatBE_length 32 y
-    refine ⟨by simp [Spec.SM2.pointBytes, hx, hy], ?_, ?_⟩
-    · simp only [Spec.SM2.pointBytes, List.append_assoc, List.singleton_append, List.drop_succ_cons, List.drop_zero]
-      rw [List.take_append_of_le_length (by omega), List.take_of_length_le (by omega)]
-    · simp only [Spec.SM2.pointBytes, List.append_assoc, List.singleton_append, List.drop_succ_cons]
-      rw [List.drop_append_of_le_length (by omega), List.drop_of_length_le (by omega)]
-      simp
+    have sl := sec1_slices (Bytes.ofNatBE 32 x) (Bytes.ofNatBE 32 y) hx
+    exact ⟨by simp [Spec.SM2.pointBytes, hx, hy], sl.1, sl.2⟩
 
 /-- `DerivePublic` -/
 theorem derivePublic_spec (X : Ctx α β) (F : CurveFacts X) (priv : Bytes) :
@@ -336,7 +373,8 @@ theorem derivePublic_spec (X : Ctx α β) (F : CurveFacts X) (priv : Bytes) :
       obtain ⟨x, y⟩ := q
       rw [hQ] at hb
       obtain ⟨h1, h2, h3⟩ := hb
-      simp [h1, h2, h3]
+      simp [h1, h3]
+      simpa using h2
   · simp [derivePublic, F.baseMult_len priv hl, Spec.SM2.derive, hl]
 
 /-- the index of the first valid candidate is below the fuel `avail sc / 32 + 1` of the model -/
@@ -374,7 +412,8 @@ theorem generateKey_some (X : Ctx α β) (F : CurveFacts X) (sc : Script) :
       obtain ⟨x, y⟩ := q
       rw [hQ] at hb
       obtain ⟨e1, e2, e3⟩ := hb
-      simp [e1, e2, e3, hcons]
+      simp [e1, e3, hcons]
+      simpa using e2
 
 /-- `GenerateKey` returns an error when no candidate is acceptable; no hypothesis on fuel or curve -/
 theorem generateKey_err_of_no_valid (X : Ctx α β) (hn : X.n = Spec.SM2.n) (sc : Script)
